@@ -339,6 +339,6 @@ let () = run_protocol (fun case0 impl -> with_schema case0 (fun c case ->
       let m = run_op c ("RT " ^ mode ^ " " ^ spec) in
       let om = c01_oracle spec m in
       (* the theorem, checked on every case: hypotheses => the model's round trip passes c01_ok *)
-      let m = (try if mode = "s" && hyp_of c spec && not om then "THEOREM-CONTRADICTED " ^ m else m with _ -> m) in
+      let m = (try if mode = "s" && not om && not (String.contains spec '(') && hyp_of c spec then "THEOREM-CONTRADICTED " ^ m else m with _ -> m) in
       (m, c01_oracle spec impl, om)
   | _ -> ("BAD-CASE", false, false)))
